@@ -1,6 +1,6 @@
 (* C17_range.v — get_first_range: soundness for any int parser, and agreement
    with RFC 7233 on headers from the grammar (with the concrete parser). *)
-From Verif Require Import lib.Base lib.ListX lib.Str lib.PyIntParse model.Static model.Range.
+From Verif Require Import lib.Base lib.ListX lib.Str lib.StrX lib.PyIntParse model.Static model.Range.
 From Coq Require Import ZifyBool.
 Local Open Scope Z_scope.
 
@@ -22,35 +22,9 @@ Qed.
 (* ------------------------------------------------------------------ *)
 (* string lemmas                                                       *)
 (* ------------------------------------------------------------------ *)
-Lemma split_once_app c h t :
-  contains_char N.eqb c h = false -> split_once N.eqb c (h ++ c :: t) = (h, Some t).
-Proof.
-  induction h as [|x h IH]; simpl.
-  - intros _. now rewrite N.eqb_refl.
-  - intros H. apply orb_false_iff in H as [Hx Hh]. rewrite Hx, (IH Hh). reflexivity.
-Qed.
 
-Lemma split_once_nosep c h :
-  contains_char N.eqb c h = false -> split_once N.eqb c h = (h, None).
-Proof.
-  induction h as [|x h IH]; simpl; [reflexivity|].
-  intros H. apply orb_false_iff in H as [Hx Hh]. rewrite Hx, (IH Hh). reflexivity.
-Qed.
 
-Lemma split_all_app c h r :
-  contains_char N.eqb c h = false -> split_all N.eqb c (h ++ c :: r) = h :: split_all N.eqb c r.
-Proof.
-  induction h as [|x h IH]; simpl.
-  - intros _. now rewrite N.eqb_refl.
-  - intros H. apply orb_false_iff in H as [Hx Hh]. rewrite Hx, (IH Hh). reflexivity.
-Qed.
 
-Lemma split_all_nosep c h :
-  contains_char N.eqb c h = false -> split_all N.eqb c h = [h].
-Proof.
-  induction h as [|x h IH]; simpl; [reflexivity|].
-  intros H. apply orb_false_iff in H as [Hx Hh]. rewrite Hx, (IH Hh). reflexivity.
-Qed.
 
 (* ------------------------------------------------------------------ *)
 (* digit strings and the concrete parser                               *)
@@ -152,15 +126,7 @@ Proof.
   - rewrite split_once_app by exact Hc. reflexivity.
 Qed.
 
-Lemma contains_app c (a b : str) :
-  contains_char N.eqb c (a ++ b) = contains_char N.eqb c a || contains_char N.eqb c b.
-Proof. unfold contains_char. apply existsb_app. Qed.
 
-Lemma findb_prefix t r : findb t (t ++ r) = Some 0%nat.
-Proof.
-  unfold findb. pose proof (prefixb_app t r) as P. unfold prefixb in P.
-  destruct (t ++ r) as [|x l]; cbn [find_sub]; rewrite P; reflexivity.
-Qed.
 
 Lemma header_parts pint da db t len :
   forallb is_digit da = true -> forallb is_digit db = true -> tail_ok t ->
